@@ -250,7 +250,13 @@ func runC12(o *hx.Out, r *hx.Rand, thorough bool) {
 						}
 					}()
 					if carrier == "httpgrpc.Server" {
-						s := httpgrpc.NewServer(httpgrpc.WithBasePath(base))
+						sopts := []httpgrpc.ServerOption{httpgrpc.WithBasePath(base)}
+						if k == 0 {
+							// a renderer that writes nothing decides how HANDLER failures look; names that resolve to
+							// no method still fail with NotFound
+							sopts = append(sopts, httpgrpc.ErrorRenderer(func(context.Context, *status.Status, http.ResponseWriter) {}))
+						}
+						s := httpgrpc.NewServer(sopts...)
 						for _, sv := range reg {
 							s.RegisterService(mkDesc(sv, l), &hx.Svc{})
 						}
